@@ -287,9 +287,18 @@ def run_machine_shard(part, tier, seed, n, ctx, guard_path, raise_sig, best_path
         raise
 
 
+def _quiet_htslib():
+    try:
+        import pysam
+        pysam.set_verbosity(0)
+    except Exception:
+        pass
+
+
 def _worker(modname, part_idx, tier, seed, shard, nshards, n, outpath, guard_path, force_guard=False):
     try:
         os.environ.setdefault("PYTHONHASHSEED", "0")
+        _quiet_htslib()
         mod = importlib.import_module(modname)
         part = mod.PARTS[part_idx]
         ctx = Ctx(tier)
@@ -469,6 +478,7 @@ def main(argv=None):
         print("no property module for", pid, file=sys.stderr)
         return 2
     try:
+        _quiet_htslib()
         mod = importlib.import_module(modname)
         import whatshap
         tree = os.environ.get("VERIF_TREE")
